@@ -340,6 +340,8 @@ def gen_value(rng, f, big_ok=True, present=None):
 
 
 INPLACE = [0, 0]
+ENUM_MEMBERS = [0]
+TEXT_AS_BYTES = [0]
 
 
 def to_lib(rng, f, v):
@@ -347,6 +349,14 @@ def to_lib(rng, f, v):
     k = f['kind']
     if v is None:
         return None
+    if k == 'uint' and f.get('base') in ('enum', 'flag') and isinstance(v, int) and rng.random() < 0.5:
+        # an enum-typed integer field is assigned a MEMBER of its type as often as the bare number
+        try:
+            ENUM_MEMBERS[0] += 1
+            return (Color if f['base'] == 'enum' else Perm)(v)
+        except ValueError:
+            ENUM_MEMBERS[0] -= 1
+            return v
     if k == 'name':
         r = rng.randrange(4)
         if r == 0:
@@ -359,6 +369,11 @@ def to_lib(rng, f, v):
     if k == 'bytes':
         r = rng.randrange(3)
         return v if r == 0 else bytearray(v) if r == 1 else memoryview(v)
+    if k == 'text' and isinstance(v, str) and rng.random() < 0.25:
+        # a text field may be handed the UTF-8 octets instead of the str (the library's own tools do)
+        b_ = v.encode('utf-8')
+        TEXT_AS_BYTES[0] += 1
+        return b_ if rng.random() < 0.6 else bytearray(b_)
     if k == 'model':
         m = f['spec']['cls']()
         for sf in f['spec']['fields']:
@@ -582,6 +597,13 @@ def check_value(ctx, rng, spec, value, thorough_gaps):
         ctx.report(f'decode-raises:{type(e).__name__}@{raising_site(e)[0]}', f'decoding the model\'s own encoding raised {e!r}', w)
         return
     got = norm_val(top, back)
+    # integer fields of an enum type: whatever was assigned (member or number), the model and its decoded copy read back equal values
+    for f in spec['fields']:
+        if f['kind'] == 'uint' and f.get('base') in ('enum', 'flag') and value.get(f['name']) is not None and not isinstance(value.get(f['name']), str):
+            a_, b_ = getattr(m, f['name']), getattr(back, f['name'])
+            ctx.event('enum-field-read-back')
+            if a_ != b_:
+                ctx.report('roundtrip-differs:enum-field', f'field {f["name"]} reads {a_!r} from the model and {b_!r} from its decoded copy', w)
     if got != exp:
         ctx.report('roundtrip-differs', 'decode(encode(m)) != m', dict(w, got=got))
     else:
@@ -677,6 +699,36 @@ def expect_decode_error(ctx, cls, wire, mech, w):
     ctx.report(mech, 'expected DecodeError, decoding succeeded', w)
 
 
+def check_enum_models(ctx, rng):
+    """Models made of integer fields only (plain, enum-typed, flag-typed): a model assigned MEMBERS, the same model assigned the bare
+    numbers, and their decoded copies are all equal (TlvModel.__eq__ has nothing here that makes it stricter than the statement)."""
+    class E(TlvModel):
+        n = UintField(0x81)
+        colour = UintField(0x82, val_base_type=Color)
+        perm = UintField(0x83, val_base_type=Perm)
+        fixed = UintField(0x84, fixed_len=2, val_base_type=Color)
+    for colour in Color:
+        for perm in (Perm.NONE, Perm.R, Perm.R | Perm.X, Perm.R | Perm.W | Perm.X):
+            a, b = E(), E()
+            a.n, a.colour, a.perm, a.fixed = 7, colour, perm, colour
+            b.n, b.colour, b.perm, b.fixed = 7, colour.value, perm.value, colour.value
+            w = {'class': 'enum-model', 'colour': colour.name, 'perm': repr(perm)}
+            try:
+                wa, wb = bytes(a.encode()), bytes(b.encode())
+                back = E.parse(wa)
+            except Exception as e:   # noqa
+                ctx.report(f'encode-raises:{type(e).__name__}@{raising_site(e)[0]}', f'{e!r}', w)
+                continue
+            ctx.case(('enum-model', colour.name, repr(perm)), nontrivial=True)
+            ctx.event('enum-model')
+            if wa != wb:
+                ctx.report('encoding-differs-from-reference', 'a model assigned enum members encodes differently from the same model assigned the numbers', w)
+            if not (back == a and a == back and a == b and back == b):
+                ctx.report('roundtrip-differs:enum-field', 'models holding the same enum-typed integers (assigned as members / as numbers / decoded) do not compare equal', w)
+            if (a.colour, a.perm, a.fixed) != (back.colour, back.perm, back.fixed) or (a.colour, a.perm) != (b.colour, b.perm):
+                ctx.report('roundtrip-differs:enum-field', 'enum-typed fields read back different values from equal models', w)
+
+
 def check_long_containers(ctx, rng):
     """Repeated and map fields with far more elements than any test uses (1100, 5000): every element is encoded and decoded."""
     for count in (1100, 5000):
@@ -704,6 +756,7 @@ def run(ctx):
     counter = [0]
     if ctx.shard == 0:
         check_long_containers(ctx, rng)
+        check_enum_models(ctx, rng)
     nclasses = ctx.n(1500, 250000)
     nvals = 8 if ctx.quick else 16
     for ci in range(nclasses):
